@@ -234,6 +234,10 @@ def Num.close (t : Tol) : Num → Num → Bool
   | .fin a, .fin b => decide (|a - b| ≤ t.atol + t.rtol * |b|)
   | _, _ => false
 
+/-- `PixCoord.__eq__` tests `np.allclose` both ways round (`allclose(a, b) and allclose(b, a)`),
+which makes the element test symmetric: `|a − b| ≤ atol + rtol·min(|a|, |b|)`. -/
+def Num.close2 (t : Tol) (a b : Num) : Bool := a.close t b && b.close t a
+
 /-- `all(p a b)` over two 1-D arrays under numpy broadcasting of the last axis:
 equal lengths, or one of them has length 1; otherwise numpy / astropy raise `ValueError`. -/
 def bcastAll (p : Num → Num → Bool) (la lb : List Num) : Except Exc Bool :=
@@ -289,17 +293,17 @@ def neDict (fa fb : Fields) : Bool :=
     | none => true
     | some vb => valNe kv.2 vb
 
-/-- `PixCoord.__ne__` (the default `not __eq__`): `not np.allclose([x, y], [ox, oy])`. -/
+/-- `PixCoord.__ne__` (the default `not __eq__`).  `__eq__`: `False` when `np.shape(self.x) !=
+np.shape(other.x)` (a scalar has shape `()`, an array `(n,)`), otherwise
+`np.allclose([x, y], [ox, oy]) and np.allclose([ox, oy], [x, y])`. -/
 def nePix (t : Tol) (fa fb : Fields) : Except Exc Bool :=
   match (fa.get? "x").bind coordList, (fa.get? "y").bind coordList,
         (fb.get? "x").bind coordList, (fb.get? "y").bind coordList with
   | some (xa, sa), some (ya, _), some (xb, sb), some (yb, _) =>
-    -- a scalar against an array is not reachable for validated regions (ScalarPixCoord /
-    -- OneDPixCoord are per class); numpy would try to broadcast (2,) against (2, n)
-    if sa ≠ sb then .error .valueError
+    if sa ≠ sb ∨ xa.length ≠ xb.length then .ok true
     else do
-      let cx ← bcastAll (Num.close t) xa xb
-      let cy ← bcastAll (Num.close t) ya yb
+      let cx ← bcastAll (Num.close2 t) xa xb
+      let cy ← bcastAll (Num.close2 t) ya yb
       pure (!(cx && cy))
   | _, _, _, _ => .ok true
 
@@ -337,13 +341,22 @@ def neSky (fa fb : Fields) : Except Exc Bool :=
     let cy ← bcastAll exact (arrOf (fa.get? "lat")) (arrOf (fb.get? "lat"))
     pure (!(cx && cy))
 
+/-- `getattr(value, 'shape', None)` as `Region.__eq__` reads it: a `SkyCoord` has shape `()` or
+`(n,)`, a scalar `Quantity` `()`, an array `(n,)`; `PixCoord`, regions, dicts, Python scalars and
+functions have no `shape` attribute. -/
+def shapeOf : V → Option (List Nat)
+  | .node _ .skycoord fs =>
+    if atomOf (fs.get? "scalar") = .bool true then some [] else some [(arrOf (fs.get? "lon")).length]
+  | .node _ .quantity _ => some []
+  | .node _ .array fs => some [fs.length]
+  | _ => none
+
 /-! #### the class table (`_params`, base classes, constructor behaviour) -/
 
 /-- what `__init__` does with the `meta=` / `visual=` argument. -/
 inductive MetaRule
   | orFresh        -- `self.meta = meta or RegionMeta()` through the converting descriptor
-  | keepIfGiven    -- compound pixel: `region1.meta if meta is None else meta`
-  | dropIfGiven    -- compound sky (current code, finding F2): `region1.meta if meta is None else RegionMeta()`
+  | keepIfGiven    -- compound pixel / sky: `region1.meta if meta is None else meta`
 deriving DecidableEq, Repr
 
 inductive CtorKind | plain | polygon | regularPolygon | compound
@@ -385,7 +398,7 @@ def classTable : List ClassInfo := [
   ⟨"TextPixelRegion", ["center", "text"], ["PointPixelRegion"], .orFresh, .plain⟩,
   ⟨"TextSkyRegion", ["center", "text"], ["PointSkyRegion"], .orFresh, .plain⟩,
   ⟨"CompoundPixelRegion", ["region1", "region2", "operator"], [], .keepIfGiven, .compound⟩,
-  ⟨"CompoundSkyRegion", ["region1", "region2", "operator"], [], .dropIfGiven, .compound⟩]
+  ⟨"CompoundSkyRegion", ["region1", "region2", "operator"], [], .keepIfGiven, .compound⟩]
 
 def classInfo? (cls : String) : Option ClassInfo := classTable.find? fun c => c.name == cls
 
@@ -452,11 +465,14 @@ def eqLoop (t : Tol) (keys : List String) : Fields → Fields → Except Exc Boo
       match fb.get? key with
       | none => .error .attributeError
       | some vb =>
-        match neV t va vb with
-        | .ok true => .ok false
-        | .ok false => eqLoop t keys rest fb
-        | .error .typeError => .ok false
-        | .error e => .error e
+        -- `getattr(a, 'shape', None) != getattr(b, 'shape', None)`: never broadcast
+        if shapeOf va ≠ shapeOf vb then .ok false
+        else
+          match neV t va vb with
+          | .ok true => .ok false
+          | .ok false => eqLoop t keys rest fb
+          | .error .typeError => .ok false
+          | .error e => .error e
     else eqLoop t keys rest fb
 end
 
@@ -610,10 +626,6 @@ def storeMeta (rule : MetaRule) (want : Kind) (region1Meta : V) (arg : V) (next 
     match arg with
     | .atom .none => (region1Meta, next)
     | v => (v, next)
-  | .dropIfGiven =>
-    match arg with
-    | .atom .none => (region1Meta, next)
-    | _ => (emptyDict want next, next + 1)
 
 /-- `PixCoord.__add__` for an array and a scalar / array operand (fresh arrays). -/
 def addCoord (a b : V) (id : Nat) : V :=
